@@ -114,6 +114,7 @@ var pitfallWhy = map[string]string{
 	"context-mismatch":          "a select case that fires on one context's Done() returns another context's Err(): when only the first one is cancelled the function stops and returns nil",
 	"flag-presence-for-value":   "cli.Context.IsSet is used where the pinned tree reads the flag's value: `--flag=false` counts as set, and a default that is true counts as unset",
 	"big-endian":                "binary.BigEndian in a repository whose formats (CARv2 header, characteristics, index records and counts) are little-endian throughout: the bytes written or reported are reversed",
+	"error-untested-exit":       "the error a call returned is assigned, and a return that reports success can be reached from the call without that error ever being tested on the way (the test stands at the head of the loop's next round, or behind a branch not taken): the last failure of a sequence is lost",
 	"map-presence-by-value":     "whether a key is in a map is decided from the value looked up (its length, nil-ness or zero-ness) instead of the comma-ok result: a key that is present with an empty value — the block of an empty file, an empty list of offsets — counts as absent",
 	"unverified-scan":           "BlockReader.SkipNext is the scan that does not hash: a caller the pinned tree does not have reads CIDs it never checks against the bytes",
 	"dynamic-type-fast-path":    "a type assertion on a parameter selects a different path by dynamic type: the fast path and the general path must agree on ownership of buffers, on position and on errors, and nothing checks that they do",
@@ -595,6 +596,9 @@ func ssaPitfalls(c *Ctx) []pitfall {
 							if pos := failureSwallowed(g, x); pos != token.NoPos {
 								addS("failure-swallowed", name, x.Pos(), "after "+name+" failed, the return at "+c.Pos(pos)+" reports success")
 							}
+							if pos := errorUntestedExit(g, x); pos != token.NoPos {
+								addS("error-untested-exit", name, x.Pos(), "the error of "+name+" is kept, but the return at "+c.Pos(pos)+" reports success on a way that never tests it")
+							}
 						}
 						if sig.Results().Len() > 1 {
 							if pos := storedBeforeChecked(g, x); pos != token.NoPos {
@@ -909,12 +913,22 @@ func sentinelName(v ssa.Value) string {
 }
 
 // isPureFunc: f stores nothing outside its own frame and calls only functions that are pure.
-func isPureFunc(f *ssa.Function, depth int) bool {
+func isPureFunc(f *ssa.Function, depth int) bool { return isPureFuncOpt(f, depth, true) }
+
+// isPureCallOf: calling f has no effect outside f's frame — what a closure f makes and returns does
+// when it is called later is not part of the call (option constructors).
+func isPureCallOf(f *ssa.Function) bool { return isPureFuncOpt(f, 0, false) }
+
+func isPureFuncOpt(f *ssa.Function, depth int, withClosures bool) bool {
 	if f == nil || f.Blocks == nil || depth > 3 {
 		return false
 	}
 	pure := true
-	for _, g := range withAnon(f) {
+	units := []*ssa.Function{f}
+	if withClosures {
+		units = withAnon(f)
+	}
+	for _, g := range units {
 		eachInstr(g, func(in ssa.Instruction) {
 			if !pure {
 				return
@@ -940,7 +954,7 @@ func isPureFunc(f *ssa.Function, depth int) bool {
 					return
 				}
 				t := staticTarget(cc)
-				if t == nil || t.Pkg == nil || !isRepoPkg(t.Pkg.Pkg.Path()) || !isPureFunc(t, depth+1) {
+				if t == nil || t.Pkg == nil || !isRepoPkg(t.Pkg.Pkg.Path()) || !isPureFuncOpt(t, depth+1, true) {
 					pure = false
 				}
 			}
@@ -1064,6 +1078,92 @@ func failureSwallowed(g *ssa.Function, call *ssa.Call) token.Pos {
 				}
 				return ret.Pos()
 			}
+		}
+	}
+	return token.NoPos
+}
+
+// errorUntestedExit: the call's error is used somewhere (it is not discarded), the function
+// returns an error, and from the call a return with a nil error can be reached without passing a
+// test of a value that carries this call's error.
+func errorUntestedExit(g *ssa.Function, call *ssa.Call) token.Pos {
+	errT := types.Universe.Lookup("error").Type()
+	res := g.Signature.Results()
+	if res.Len() == 0 || !types.Identical(res.At(res.Len()-1).Type(), errT) {
+		return token.NoPos
+	}
+	ev := errOfCallValue(call)
+	if ev == nil || ev.Referrers() == nil || len(*ev.Referrers()) == 0 {
+		return token.NoPos // discarded outright: another table (dropped errors)
+	}
+	isErr := errOfCall(call)
+	// blocks that test the error (either outcome), and returns that hand it on
+	tests := map[*ssa.BasicBlock]bool{}
+	for _, e := range condEdges(g, errNilCond(isErr, true)) {
+		tests[condBlock(e)] = true
+		tests[e.From] = true
+	}
+	for _, e := range condEdges(g, errNilCond(isErr, false)) {
+		tests[condBlock(e)] = true
+		tests[e.From] = true
+	}
+	// a comparison with a sentinel (`err == io.EOF`, `switch err { case io.EOF: … }`) or errors.Is /
+	// errors.As on it is a test of the error as well
+	for _, b := range g.Blocks {
+		if len(b.Instrs) == 0 {
+			continue
+		}
+		iff, ok := b.Instrs[len(b.Instrs)-1].(*ssa.If)
+		if !ok {
+			continue
+		}
+		base, _ := condNorm(iff.Cond)
+		switch x := base.(type) {
+		case *ssa.BinOp:
+			if (x.Op == token.EQL || x.Op == token.NEQ) && (isErr(x.X) || isErr(x.Y)) {
+				tests[b] = true
+			}
+		case *ssa.Call:
+			if f := calleeFunc(x.Common()); funcIs(f, "errors", "", "Is") || funcIs(f, "errors", "", "As") {
+				if len(x.Call.Args) > 0 && isErr(x.Call.Args[0]) {
+					tests[b] = true
+					tests[x.Block()] = true
+				}
+			}
+		}
+	}
+	if len(tests) == 0 {
+		return token.NoPos // never tested anywhere: handed on or stored; not this kind
+	}
+	if tests[call.Block()] {
+		// tested in the block of the call itself (straight-line `if err != nil` right behind it)
+		return token.NoPos
+	}
+	seen := map[*ssa.BasicBlock]bool{}
+	work := []*ssa.BasicBlock{}
+	for _, s := range call.Block().Succs {
+		work = append(work, s)
+	}
+	for len(work) > 0 {
+		b := work[len(work)-1]
+		work = work[:len(work)-1]
+		if seen[b] || tests[b] {
+			continue
+		}
+		seen[b] = true
+		if len(b.Instrs) > 0 {
+			if ret, ok := b.Instrs[len(b.Instrs)-1].(*ssa.Return); ok && len(ret.Results) > 0 {
+				rv := retResult(ret, len(ret.Results)-1)
+				if !isErr(rv) && (isNilConst(rv) || nilness(rv, ret.Block()) == 1) {
+					return ret.Pos()
+				}
+			}
+		}
+		for _, s := range b.Succs {
+			if s == call.Block() {
+				continue // round the loop to the same call again: its error is overwritten, judged there
+			}
+			work = append(work, s)
 		}
 	}
 	return token.NoPos
@@ -1350,6 +1450,8 @@ func registerPitfallRules() {
 		def.Rules = append(def.Rules, RuleDef{ID: gid, Floor: 3, Doc: "no bound moved and no new rejection in the functions the property's anchor files declare or reach: every integer comparison that decides a branch, in canonical form (affine expression over stable atoms, split point), splits where the pinned tree splits (baseline_guards.txt), and no comparison of a quantity the function did not compare before returns an error of its own", Run: ruleGuards})
 		wid := "R" + strings.TrimPrefix(id, "C") + "W"
 		def.Rules = append(def.Rules, RuleDef{ID: wid, Floor: 3, Doc: "no field read or call exchanged for a like-typed sibling in the functions the property's anchor files declare or reach: per function, the struct fields read and the functions called are held against the pinned tree (baseline_siblings.txt); a field read more often while another field of the same struct and type is read less often (one side of the exchange complete), or a new call while a call with the same parameter and result types is lost, is reported (siblings.go)", Run: ruleSiblings})
+		oid := "R" + strings.TrimPrefix(id, "C") + "O"
+		def.Rules = append(def.Rules, RuleDef{ID: oid, Floor: 3, Doc: "no two events stand in the other order than in the pinned tree, in the functions the property's anchor files declare or reach: impure calls, stores into state the function did not make, error tests, tests of boolean results and integer guards; for every pair that the pinned tree orders one way only (dominance; baseline_order.txt) the working tree does not order it the other way only (order.go)", Run: ruleOrder})
 		sid := "R" + strings.TrimPrefix(id, "C") + "S"
 		def.Rules = append(def.Rules, RuleDef{ID: sid, Floor: 1, Doc: "no necessary condition of another property is violated or undecided in a function this property's anchor files declare or reach: every function-keyed obligation of every other property's rules inside the reach is reported here too, with the rule and property it comes from (shared.go)", Run: ruleShared})
 		registry[id] = def
